@@ -34,6 +34,9 @@ inductive SAct where
   | finish (code : Option String)
   | yield (code : String)
   | brk (loop : Nat)
+  /-- only among the per-byte actions of a `foreach`: an `if` whose branches are blocks of actions
+      (block indices into the program; statement-level conditionals are `Stmt.ifs`) -/
+  | cond (bs : List (Cond × Nat))
   deriving DecidableEq, Repr, Hashable, Inhabited
 
 /-- An action whose only effect is a non-self-referential write to an output (the compiler may
@@ -141,15 +144,42 @@ def actEv (c : Ctx) : SAct → Option AEv
   | .appendC i e => some (.appendC i (subst c.o c.x e))
   | _ => none
 
+/-- the per-byte actions a block of action statements stands for (branches of a per-byte `if`) -/
+def blockActs (p : Prog) (blk : Nat) : List SAct :=
+  (p.blocks.getD blk []).filterMap fun s =>
+    match s with
+    | .act a => some a
+    | .ifs bs => some (.cond bs)
+    | _ => none
+
+/-- Per-byte actions in order, then `k`; `depth` bounds the nesting of conditionals. An append that
+    finds its output full hands over to `oos` (the byte is the offending one: not consumed). -/
+def pcActs (c : Ctx) (oos : STree) : Nat → List SAct → STree → STree
+  | _, [], k => k
+  | depth, a :: rest, k =>
+    let k' := pcActs c oos depth rest k
+    match a with
+    | .appendC i e => Tree.ask (.full i) oos (.emit (.appendC i (subst c.o c.x e)) k')
+    | .cond bs =>
+      match depth with
+      | 0 => k'
+      | d + 1 =>
+        bs.foldr (fun cb els =>
+          let body := pcActs c oos d (blockActs c.p cb.2) k'
+          match cb.1 with
+          | .else_ => body
+          | .const true => body
+          | .const false => els
+          | .expr e => .ask (.cond (subst c.o c.x e)) body els) k'
+    | a => match actEv c a with
+      | some ev => if a.dropL && c.o.dropLoose then k' else .emit ev k'
+      | none => k'
+termination_by depth l => (depth, l.length)
+
 /-- Events of one consumed byte of a match, then `k`; `oos` is what an out-of-space does. -/
 def perCharTree (c : Ctx) (pc : PerChar) (k : STree) (oos : STree) : STree :=
   let appends := pc.appends.foldr (fun out k => Tree.ask (.full out) oos (.emit (.append out (lastArg c.o c.x)) k)) k
-  pc.acts.foldr (fun a k =>
-    match a with
-    | .appendC i e => Tree.ask (.full i) oos (.emit (.appendC i (subst c.o c.x e)) k)
-    | a => match actEv c a with
-      | some ev => if a.dropL && c.o.dropLoose then k else .emit ev k
-      | none => k) appends
+  pcActs c oos 8 pc.acts appends
 
 /-- perform the pending loose actions -/
 def flushT (pend : List AEv) (k : STree) : STree := pend.foldr (fun e k => .emit e k) k
